@@ -105,6 +105,8 @@ def parents(tier):
     # names that are equal up to a trailing / leading blank are different samples / drugs (a loader that trims collides them)
     out.append(("", {"U": "a "}, {"SU": "s0 "}, False))
     out.append(("ctl", {"U": " b", "c": "c "}, {"SU": " s1"}, True))
+    # non-ASCII names among the LONGEST of their array (more utf-8 bytes than characters; equal up to the last character)
+    out.append(("", {"U": "dr\u00e6g-1", "c": "dr\u00e6g-2"}, {"SU": "Zo\u00eb-1", "s0": "Zo\u00eb-2"}, False))
     # several control spellings in one mapping
     out.append(("ctl", {"U": "zlast", "__zero__": True}, smaps[1], False))
     out.append(("", {"U": "0first", "__zero__": True}, smaps[2], False))
